@@ -322,6 +322,9 @@ def rule_dvalue(program, ctx):
 
 
 def run(program, ctx):
+    from ..lib import rule_awaited
+
+    rule_awaited(program, ctx, P, ANCHORS)
     from . import c07
 
     c07.rule_sqlregion(program, ctx, prop=P, rid="C09.txn")
@@ -330,6 +333,9 @@ def run(program, ctx):
     rule_all_sql(program, ctx)
     rule_frame_kv(program, ctx)
     rule_dvalue(program, ctx)
+    from . import c10
+
+    c10.rule_injective(program, ctx, prop=P, rid="C09.index")
     ctx.not_decided += [
         "arrival-order outcomes and equal timestamps as behaviour",
         "that an incoming event older than the stored newest version is itself not kept (both backends store it)",
